@@ -7,7 +7,9 @@ use serde_json::json;
 const TYPES: &[&str] = &["beacon", "csp_report", "document", "main_frame", "font", "image", "imageset", "media", "object", "object_subrequest", "ping", "script", "stylesheet", "sub_frame", "subdocument", "websocket", "xhr", "xmlhttprequest", "other"];
 const ATOMS: &[&str] = &["script", "~script", "image", "~image", "media", "~media", "object", "~object", "object-subrequest", "other", "~other", "ping", "~ping", "beacon", "stylesheet", "css", "~stylesheet", "subdocument", "frame", "~subdocument", "xmlhttprequest", "xhr", "~xhr", "websocket", "~websocket", "font", "~font", "document", "doc",
     "third-party", "3p", "~third-party", "first-party", "1p", "~first-party", "important", "badfilter",
-    "domain=a.com", "domain=~a.com", "domain=a.com|~sub.a.com", "from=b.org|a.com", "domain=~x.a.com|~b.org", "domain=com"];
+    "domain=a.com", "domain=~a.com", "domain=a.com|~sub.a.com", "from=b.org|a.com", "domain=~x.a.com|~b.org", "domain=com",
+    // regex entries of a domain list are not supported and are dropped, negated ones too; a list of nothing else is an error
+    "domain=~/evil\\.com/", "domain=/re/|a.com", "domain=~/x/|~a.com", "domain=/only/", "from=~/a/|~/b/"];
 
 fn requests() -> Vec<Req> {
     let mut v = vec![];
